@@ -13,6 +13,7 @@ import H263V.Spec.Recon
 import H263V.Lemmas.VlcTables
 import H263V.Thm.C11
 import H263V.Lemmas.SorensonPicture
+import H263V.Lemmas.BasePicture
 namespace H263V.Thm.C02
 open H263V H263V.Gather H263V.Spec.Vlc
 
@@ -60,6 +61,16 @@ theorem picture_round_trip (s : State) (hs : s.opts.sorenson = true) (hr : s.run
     decodeNextPicture s ⟨p.bits ++ rest, pos⟩ =
       semCore s (Spec.HeaderSpec.sorensonPicture p.hdr) p.mbs >>= fun r => .ok (commitPic s r.1 r.2, ⟨rest, pos + p.bits.length⟩) :=
   decode_spic s hs hr p w h hv rest pos
+
+open H263V.State H263V.Lemmas.BasePicture H263V.Lemmas.PictureRoundTrip in
+/-- The same for baseline standard-H.263 pictures (PTYPE headers; 8-bit escapes; no PB frames; standard mode without the
+scalability option; the previous picture, if any, of the same source format). -/
+theorem picture_round_trip_baseline (s : State) (hs : s.opts = { sorenson := false, scalability := false }) (hr : s.running = 0)
+    (p : BPic) (w h : Nat) (hv : p.Valid s.opts w h)
+    (hprev : ∀ q, s.getLast = some q → q.hdr.format = some (Spec.HeaderSpec.stdFmt p.hdr.srcFmt)) (rest : Bits) (pos : Nat) :
+    decodeNextPicture s ⟨p.bits ++ rest, pos⟩ =
+      semCore s (Spec.HeaderSpec.basePicture p.hdr) p.mbs >>= fun r => .ok (commitPic s r.1 r.2, ⟨rest, pos + p.bits.length⟩) :=
+  decode_bpic s hs hr p w h hv hprev rest pos
 
 open H263V.State H263V.Lemmas.SorensonPicture H263V.Lemmas.PictureRoundTrip in
 /-- The decoded picture reports the header it was decoded from and the format that header signals; its planes have the
